@@ -2,6 +2,21 @@
 
 package webrtc
 
+import (
+	"context"
+
+	"github.com/pion/datachannel"
+)
+
 // VerifIsOfferer exposes the unexported role decision to the verification
 // harness (property C26). Present only with -tags verif through an overlay.
 func VerifIsOfferer(a, b string) bool { return isOfferer(a, b) }
+
+// VerifSessionLink builds the session tracker of the transport for the given
+// signaled peer and returns its role and a function that runs the tracker's
+// link over the given (already open) data channel, exactly as the session does
+// once the data channel opened.
+func VerifSessionLink(w *WebRTC, signaledPeerID string) (offerer bool, run func(ctx context.Context, dc datachannel.ReadWriteCloser) error) {
+	_, tkr := w.newSessionTracker(signaledPeerID)
+	return tkr.offerer, tkr.executeLink
+}
